@@ -447,6 +447,24 @@ func (fr *Frame) callWithContract(st *State, c *FuncContract, fn *ssa.Function, 
 				}
 				continue
 			}
+			if pat, ex := splitAssign(a); ex != "" {
+				e, err := parseSpecExpr(ex)
+				if err != nil {
+					x.vc.diag("assigns %s: %v", a, err)
+					heapPats = append(heapPats, pat)
+					continue
+				}
+				renv := *env
+				renv.st = pre
+				rv, err := renv.evalVal(e)
+				if err != nil {
+					x.vc.diag("assigns %s: %v", a, err)
+					heapPats = append(heapPats, pat)
+					continue
+				}
+				x.havocRow(st, []string{pat}, rv.L[0], pre.allocTop)
+				continue
+			}
 			heapPats = append(heapPats, a)
 		}
 		x.havocHeapsMatching(st, heapPats)
@@ -492,7 +510,7 @@ func (fr *Frame) callWithContract(st *State, c *FuncContract, fn *ssa.Function, 
 	env.st = st
 	env.old = pre
 	for _, e := range c.Ensures {
-		g, err := env.evalBool(e.Expr)
+		g, err := env.assuming().evalBool(e.Expr)
 		if err != nil {
 			x.vc.diag("%s: ensures of %s: %v", fr.fn.String(), name, err)
 			continue
@@ -594,8 +612,10 @@ func (fr *Frame) callbackLoop(st *State, cl *Closure, pname string, env *SpecEnv
 	ci.count = "0"
 	label := fmt.Sprintf("callback %d", ord)
 	pre := st.clone()
+	polarity := 0
 	evalInv := func(s *State, n string, c *Clause) string {
 		e := fr.specEnv(s)
+		e.pol = polarity
 		e.vars = map[string]*Val{}
 		e.lookup = func(ss *State, name string) (*Val, bool) { return fr.lookupLocal(ss, name, cl.fn.Pos()) }
 		e.cbOrd, e.cbN, e.entry = ord, n, pre
@@ -643,9 +663,11 @@ func (fr *Frame) callbackLoop(st *State, cl *Closure, pname string, env *SpecEnv
 	n := x.vc.fresh("cbn", sInt)
 	x.vc.assume(tCmp("<=", "0", n))
 	st.pc = x.vc.def("pc", sBool, st.pc)
+	polarity = -1
 	for _, c := range invs {
 		x.vc.assume(tImp(st.pc, evalInv(st, n, c)))
 	}
+	polarity = 0
 	after := st.clone() // iteration over, no invocation failed
 	// one more invocation
 	var cargs []*Val
@@ -814,14 +836,13 @@ func (fr *Frame) doAppend(st *State, s, t *Val, pos token.Pos) *Val {
 	}
 	if top := x.top; top != nil && top.contract != nil && x.noObl == 0 {
 		// in-place append writes caller-visible memory
-		allowed := false
-		for _, a := range top.contract.Assigns {
-			if heapMatches("A_"+typeKey(et)+"_", a) || a == "*" {
-				allowed = true
-			}
-		}
+		allowed, rows := x.frameAllow("A_" + typeKey(et) + "_")
 		if !allowed {
-			x.oblige(st, "frame", "append "+x.w.nodeTextAt(pos), pos, tOr(tNot(fits), tCmp(">", s.L[0], top.entry.allocTop)), nil, false)
+			goal := tOr(tNot(fits), tCmp(">", s.L[0], top.entry.allocTop))
+			for _, r := range rows {
+				goal = tOr(goal, tEq(s.L[0], r))
+			}
+			x.oblige(st, "frame", "append "+x.w.nodeTextAt(pos), pos, goal, nil, false)
 		}
 	}
 	out := &Val{Ty: s.Ty, L: []string{ref, s.L[1], newLen, x.vc.def("cap", sInt, tIte(fits, s.L[3], newCap))}}
@@ -867,12 +888,15 @@ func (fr *Frame) sliceWriteFrame(st *State, s *Val, pos token.Pos, what string) 
 		return
 	}
 	et := sliceElem(s.Ty)
-	for _, a := range top.contract.Assigns {
-		if heapMatches("A_"+typeKey(et)+"_", a) || a == "*" {
-			return
-		}
+	allowed, rows := x.frameAllow("A_" + typeKey(et) + "_")
+	if allowed {
+		return
 	}
-	x.oblige(st, "frame", what+" into "+typeKey(et), pos, tCmp(">", s.L[0], top.entry.allocTop), nil, false)
+	goal := tCmp(">", s.L[0], top.entry.allocTop)
+	for _, r := range rows {
+		goal = tOr(goal, tEq(s.L[0], r))
+	}
+	x.oblige(st, "frame", what+" into "+typeKey(et), pos, goal, nil, false)
 }
 
 // ---------------------------------------------------------------------
